@@ -229,8 +229,73 @@ pub fn judge_a(ctx: &Ctx, sc: &ScenarioA, out: &mut OutcomeA, agg: &mut Agg) -> 
             judge_c09_a(out);
             0
         }
+        "C19" => {
+            judge_c19_a(sc, out);
+            0
+        }
         _ => 0,
     }
+}
+
+/// C19 through the UCI text: the first info line of the first search after a `ucinewgame` reports a
+/// fill that a table emptied by the `ucinewgame` can have reached with the nodes searched so far.
+fn judge_c19_a(sc: &ScenarioA, out: &mut OutcomeA) {
+    // table size in effect: the last Hash value the script set (C19 sessions set it once, at the start)
+    let mut mb: usize = sc.knobs.initial_hash_mb.unwrap_or(256);
+    let mut go_index = 0usize;
+    let mut after_newgame = false;
+    for i in &sc.script {
+        match i {
+            Intent::SetOption { name, value } if name == "Hash" => mb = value.parse().unwrap_or(mb),
+            Intent::UciNewGame => after_newgame = true,
+            Intent::Go(_) => {
+                if after_newgame {
+                    if let Some(g) = out.gos.get(go_index) {
+                        if let Some(first) = g.infos.first() {
+                            let slots = super::ttmodel::slots_for(mb) as u64;
+                            let nodes = first.nodes.unwrap_or(0) + 1;
+                            let max_fill = (nodes.min(slots) * 1000 / slots) + 1;
+                            if let Some(h) = first.hashfull {
+                                if h > max_fill && out.refused_setoptions == 0 {
+                                    out.found.push(Found {
+                                        class: "tt-not-empty-after-newgame".into(),
+                                        message: format!("first info line after ucinewgame reports hashfull {h} after {nodes} nodes on a {mb} MB table ({slots} slots): the table was not emptied"),
+                                        signature: "tt-not-empty-after-newgame".into(),
+                                    });
+                                    return;
+                                }
+                            }
+                        }
+                    }
+                    after_newgame = false;
+                }
+                go_index += 1;
+            }
+            _ => {}
+        }
+    }
+}
+
+pub fn gen_c19_a(ctx: &Ctx, run: u64) -> ScenarioA {
+    let mut rng = Rng::derive(ctx.seed, run, "c19a");
+    let mut krng = Rng::derive(ctx.seed, run, "c19a.knobs");
+    let mut knobs = gen_knobs(&mut krng);
+    knobs.initial_hash_mb = Some(*rng.pick(&[1usize, 1, 2, 3]));
+    let mut script = Vec::new();
+    for _ in 0..rng.range(1, 3) {
+        let (fen, moves) = gen_position(&mut rng, false);
+        script.push(Intent::Position { fen, moves });
+        script.push(Intent::Go(GoSpec::depth(rng.range(4, 6) as u8)));
+        script.push(Intent::WaitBestmove);
+        // the new game starts the moment the GUI has seen bestmove
+        script.push(Intent::UciNewGame);
+        let (fen, moves) = gen_position(&mut rng, false);
+        script.push(Intent::Position { fen, moves });
+        script.push(Intent::Go(GoSpec::depth(1)));
+        script.push(Intent::WaitBestmove);
+    }
+    script.push(Intent::Quit);
+    ScenarioA { script, knobs, clock_events: vec![], sched_seed: Rng::derive(ctx.seed, run, "c19a.sched").next_u64(), schedule: None }
 }
 
 pub fn judge_b(ctx: &Ctx, sc: &ScenarioB, out: &mut OutcomeB) {
@@ -509,6 +574,7 @@ pub fn scenario_of(ctx: &Ctx, run: u64) -> Option<Scenario> {
         }
         "C14" => Some(Scenario::A(gen_c14(ctx, run))),
         "C09" => Some(if run % 8 == 7 { Scenario::A(gen_c09_a(ctx, run)) } else { Scenario::B(gen_c09(ctx, run).base) }),
+        "C19" if run % 10 == 8 => Some(Scenario::A(gen_c19_a(ctx, run))),
         "C19" => Some(Scenario::T(super::ttmodel::gen_tt(&mut Rng::derive(ctx.seed, run, "c19"), ctx.thorough(), run))),
         "C08" => Some(if run % 5 == 4 { Scenario::A(gen_c08_a(ctx, run)) } else { Scenario::B(gen_c08(ctx, run)) }),
         _ => None,
@@ -1107,6 +1173,15 @@ pub fn run_c19(ctx: &Ctx, run: u64) -> RunReport {
         }
         let out = run_b(&sc, &BOptions { node_cap: NON_TERMINATION_NODES, keep_infos: 1 });
         absorb_b(ctx, &mut rep, &sc, &out, out.stats.searches > 0);
+        return rep;
+    }
+    if run % 10 == 8 {
+        // the fill indicator as the UCI text shows it: after `ucinewgame` (sent right after bestmove,
+        // the scheduler decides what the finished search thread still holds) the table must be empty
+        let sc = gen_c19_a(ctx, run);
+        let mut out = run_a(&sc, false);
+        judge_a(ctx, &sc, &mut out, &mut rep.agg);
+        absorb_a(ctx, &mut rep, &sc, &out, out.stats.searches > 1);
         return rep;
     }
     let mut rng = Rng::derive(ctx.seed, run, "c19");
